@@ -66,10 +66,10 @@ def PlanSpec.toPlan (p : PlanSpec) : Plan :=
 
 def DState.params (d : DState) : SParams where
   codec := mkCodec d.ctab
-  dzRead := idealDz d.ztab
+  dzRead := tableDz d.ztab
   -- the fuel of one `decoder_read`: what the table decompressor can still hand out, plus one (`DzOK` holds literally:
   -- Lemmas/DrvOrecvDzOK.lean `drv_params_dzOK`, from path's `idealContract`)
-  dzFuel := idealFuel d.ztab
+  dzFuel := tableFuel d.ztab
   md5 := Md5.md5b64
   planOf toi k :=
     match d.plans.find? (·.1 == (toi, k)) with
